@@ -110,7 +110,8 @@ async def run_schedule(sc):
             clients.append(Client(ip, V3(u.name.decode(), Auth(u.auth[1], u.auth[0]), Priv(u.priv[1], u.priv[0]) if u.priv else None), sender=gate.sender))
     for i in range(nclients if not sc.get("same_agent") else 0):
         ip = "192.0.2.%d" % (i + 1)
-        agents[ip] = make_agent(mk_mib(i), proto, engine=b"\x80\x00\x1f\x88\x80engine%d" % i, boots=3 + i, clock=lambda: clock[0])
+        # same_engine: the agents (other address, other data, other boots counter) announce ONE snmpEngineID - cloned devices, fail-over pairs
+        agents[ip] = make_agent(mk_mib(i), proto, engine=b"\x80\x00\x1f\x88\x80engine%d" % (0 if sc.get("same_engine") else i), boots=3 + 4 * i, clock=lambda: clock[0])
         clients.append(Client(ip, creds_for(proto), sender=gate.sender))
     import puresnmp.api.raw, puresnmp_plugins.security.usm  # noqa
     _clk = patched_clock(lambda: clock[0])
